@@ -1,1 +1,3 @@
 import Litestream.Model.Plan
+import Litestream.Props.C08
+import Litestream.Audit
